@@ -238,7 +238,7 @@ class TTElement(TTMLElement):
     if model_doc.get_cell_resolution() != model.CellResolutionType(rows=15, columns=32):
       imsc_attr.CellResolutionAttribute.set(tt_element, model_doc.get_cell_resolution())
 
-    has_px = False
+    has_px = any(StyleProperties.BY_MODEL_PROP[p].has_px(v) for p, v in model_doc.iter_initial_values())
 
     all_elements = list(model_doc.iter_regions())
 
